@@ -85,6 +85,16 @@ func evalSpelled(cs sc.Case, spec lib.SchemaSpec, how string) (accepted bool, di
 		return true, "error", fmt.Sprintf("%s: Check succeeds but GetAST fails: %s", d, res)
 	}
 	got, _ := stdjson.Marshal(conv(ast))
+	// a second GetAST on the same object, after the other accessors ran, must give the same tree
+	_, _ = s.Example()
+	_ = lib.Validate(s, "null")
+	if ast2, err2 := s.GetAST(); err2 == nil {
+		if got2, _ := stdjson.Marshal(conv(ast2)); string(got2) != string(got) {
+			return true, "unstable", fmt.Sprintf("%s: GetAST = %s, but after Example and Validate on the same schema GetAST = %s", d, got, got2)
+		}
+	} else {
+		return true, "unstable", fmt.Sprintf("%s: a second GetAST on the same schema fails: %v", d, err2)
+	}
 	want, _ := stdjson.Marshal(astmodel.Expected(cs.Root))
 	if string(got) != string(want) {
 		return true, "differs", fmt.Sprintf("%s: GetAST = %s, the schema text says %s", d, got, want)
